@@ -162,5 +162,9 @@ def run(repo, res, tier):
     c14.spanuse_rule(repo, res)
     c08.conflicting_descr_rule(repo, res)
     c08.graph_walkers(repo, res)
+    # the level of a literal is per occurrence: the body of a definition is ONE sub-tree shared by all its references, so a pass
+    # that edits a node in place gives every occurrence the level of the last one visited (two readings of one word across levels)
+    from . import c02
+    c02.arena_immut(repo, res, tier)
     res.floor("EQFIELDS", res.count("EQFIELDS"), 6)
     res.floor("COARSE", res.count("COARSE"), 3)
